@@ -14,7 +14,10 @@ for m in sorted(glob.glob('/verif/seeded/*/meta.json')):
     sigs = []
     for p in caught:
         sigs += q.get(p, {}).get('signatures', [])[:2]
-    rows.append('| %s | %s | %s | %s |' % (sid, notes, ', '.join(caught) or '**none**', '; '.join(s.replace('|', '/') for s in sigs[:3])))
+    cb = ', '.join(caught) or '**none**'
+    if d.get('superseded'):
+        cb = 'superseded by a fix: commit (no longer changes behaviour)'
+    rows.append('| %s | %s | %s | %s |' % (sid, notes, cb, '; '.join(s.replace('|', '/') for s in sigs[:3])))
 table = '\n'.join(['| Seeded change | What it changes / needs (from its notes) | Caught by (quick tier unless marked) | Signatures |', '|---|---|---|---|'] + rows)
 p = '/verif/DESIGN.md'
 s = open(p).read()
